@@ -99,7 +99,7 @@ func ins(op string, am string, a int64, bm string, b int64) rc.Item {
 
 // family draws a warrior whose fate depends on the options.
 func family(t *rapid.T, label string, legacy bool, m, p, c, l, f int) (rc.Program, string) {
-	fams := []string{"survivor", "timer", "timer", "forkbomb", "sniper", "sniper", "suicide", "random", "random", "random", "splitter", "trap"}
+	fams := []string{"survivor", "timer", "timer", "forkbomb", "sniper", "sniper", "suicide", "random", "random", "random", "splitter", "trap", "sitter_with_side_effect"}
 	fam := rapid.SampledFrom(fams).Draw(t, label+"fam")
 	var items []rc.Item
 	switch fam {
@@ -110,6 +110,15 @@ func family(t *rapid.T, label string, legacy bool, m, p, c, l, f int) (rc.Progra
 		if legacy {
 			items = []rc.Item{ins("JMP", "$", 1, "$", 0), ins("DAT", "#", 0, "#", 0)}
 		}
+	case "sitter_with_side_effect":
+		// sits on a jump to itself whose B operand still decrements or increments a field somewhere:
+		// its own (then it walks off), the opponent's, or a blank cell
+		mode := "<"
+		if !legacy {
+			mode = rapid.SampledFrom([]string{"{", "}", "<", ">"}).Draw(t, label+"sidemode")
+		}
+		d := rapid.SampledFrom([]int{0, 0, f, m - f, 1, f + 1}).Draw(t, label+"sidedist")
+		items = []rc.Item{ins("JMP", "$", 0, mode, int64(((d%m)+m)%m))}
 	case "forkbomb":
 		items = []rc.Item{ins("SPL", "$", 0, "$", 0), ins("DAT", "#", 0, "#", 0)}
 	case "splitter":
